@@ -76,7 +76,8 @@ def canon_bits(node):
     `x / 8 * 8` and `x - x % 8` are one expression to every rule:
       x & (2^k - 1)  (k >= 2)  ->  x % 2^k
       x & !(2^k - 1)           ->  x - x % 2^k
-      (x / c) * c              ->  x - x % c"""
+      (x / c) * c              ->  x - x % c
+      x >> k  (constant k)     ->  x / 2^k"""
     op, a, b = node[1], node[2], node[3]
     if op == "BitAnd":
         for (x, c) in ((a, b), (b, a)):
@@ -88,6 +89,10 @@ def canon_bits(node):
             inv = (1 << 64) - ci
             if ci >= (1 << 63) and _pow2(inv):
                 return ("bin", "Sub", x, ("bin", "Rem", x, ("const", str(inv))))
+    if op == "Shr":
+        k = _const_int(b)
+        if k is not None and 0 < k < 64:
+            return ("bin", "Div", a, ("const", str(1 << k)))  # x >> k = x / 2^k (unsigned)
     if op == "Mul":
         for (x, c) in ((a, b), (b, a)):
             if c[0] == "const" and x[0] == "bin" and x[1] == "Div" and x[3] == c:
@@ -671,7 +676,7 @@ def _exclusive(f, g):
     return False
 
 
-def mutated_between(ctx, d1, bb, places, stops=(), include_start=True):
+def mutated_between(ctx, d1, bb, places, stops=(), include_start=True, ignore=None):
     """some block on a path d1 -> bb may write one of `places` ((root, path) pairs; a write to a
     prefix or an extension of a path counts): an assignment through a projection, or a call that
     is handed a `&mut` into it.  Paths that come back to d1 or run into one of `stops` are not
@@ -705,6 +710,8 @@ def mutated_between(ctx, d1, bb, places, stops=(), include_start=True):
         region |= {d1}
     for x in region:
         for st in body.blocks[x]["stmts"]:
+            if st is ignore:
+                break  # the fact is used at this very statement: what it and later ones write is irrelevant
             if st["k"] == "assign" and st["place"]["p"]:
                 if any(_overlaps(places, r, _p) for (r, _p) in ctx.org.place(st["place"])):
                     return True
@@ -759,7 +766,7 @@ def _calls_of(t):
                 yield from _calls_of(x)
 
 
-def fact_still_holds(ctx, f, bb):
+def fact_still_holds(ctx, f, bb, ignore=None):
     """a dominating branch fact about mutable state is only usable at bb when nothing it mentions
     can have been written between the point where the tested value was computed (the measuring
     call, e.g. `is_empty()`; the branch itself for plain field comparisons) and bb -- a guard
@@ -779,11 +786,11 @@ def fact_still_holds(ctx, f, bb):
             evals |= EVAL_MERGE.get((ctx.body.key, nd[4]), set())
     kills = FLAG_META.get((ctx.body.key, d), {}).get("kills", set())
     if not evals:
-        return not mutated_between(ctx, d, bb, places, stops=kills)
+        return not mutated_between(ctx, d, bb, places, stops=kills, ignore=ignore)
     for e in evals:
         if e == bb:
             continue
-        if mutated_between(ctx, e, bb, places, stops=(evals - {e}) | kills, include_start=False):
+        if mutated_between(ctx, e, bb, places, stops=(evals - {e}) | kills, include_start=False, ignore=ignore):
             return False
     return True
 
@@ -1059,6 +1066,15 @@ def expand(facts, t, depth=0):
         out = {NONE}
         for r in apply_fn(facts, a[1], [], depth + 1):
             out.add(("agg", "Option::Some", (r,), ()))
+        return out
+    if tag == ("Option", "unwrap_or_else") and len(a) == 2:
+        out = set()
+        for x in expand(facts, a[0], depth + 1):
+            if x == NONE:
+                continue
+            out.add(x[2][0] if is_agg(x, "Option::Some") else tproj(x, ("v:Some", "f:0")))
+        for r in apply_fn(facts, a[1], [], depth + 1):
+            out |= expand(facts, r, depth + 1)
         return out
     if tag in (("Option", "unwrap_or"),) and len(a) == 2:
         out = set()
